@@ -65,6 +65,14 @@ def pristine():
                 cfk=cfk, cfka=cfka, cfkl=cfkl, cfkl2=cfkl2, dfc=dfc, dft=dft, dfa=dfa, dfs=dfs, p=p, t=t, r=r, d=d)
 
 
+def _expect_raise(f):
+    try:
+        f()
+    except ValueError as e:
+        return 'ValueError'
+    return 'returned'
+
+
 def alphabet():
     from bycycle.features import (compute_features, compute_shape_features, compute_cyclepoints, compute_burst_features)
     from bycycle.features.burst import (compute_amp_fraction, compute_amp_consistency, compute_period_consistency,
@@ -93,6 +101,10 @@ def alphabet():
         'cf_default_t': lambda s: compute_features(s['sig'], FS, FR, center_extrema='trough'),
         'cf_amp_default': lambda s: compute_features(s['sig'], FS, FR, burst_method='amp'),
         'cf_amp_nothr_m8': lambda s: compute_features(s['sig'], FS, FR, burst_method='amp', burst_kwargs=s['bk8']),
+        # calls that FAIL (band-amplitude filter longer than the signal: 3 cycles at 1 Hz = 193 samples > 128)
+        'cf_fail_t': lambda s: _expect_raise(lambda: compute_features(s['sig'], FS, (1, 3), center_extrema='trough', threshold_kwargs=s['thr'])),
+        'cf_fail_amp': lambda s: _expect_raise(lambda: compute_features(s['sig'], FS, (1, 3), burst_method='amp', threshold_kwargs=s['thra'], burst_kwargs=s['bk'])),
+        'shape_fail_t': lambda s: _expect_raise(lambda: compute_shape_features(s['sig'], FS, (1, 3), center_extrema='trough', find_extrema_kwargs=s['fek'])),
         'edges_noburst': lambda s: recompute_edges(s['dfnb'], s['thr']),
         'shape': lambda s: compute_shape_features(s['sig'], FS, FR, find_extrema_kwargs=s['fek']),
         'shape_t': lambda s: compute_shape_features(s['sig'], FS, FR, center_extrema='trough'),
@@ -134,12 +146,12 @@ def alphabet():
     return A
 
 
-NAMES = ['amp_buf_A', 'amp_buf_B', 'cf_default', 'cf_default_t', 'cf_amp_default', 'cf_amp_nothr_m8', 'edges_noburst', 'cf_buf_A', 'cf_buf_B', 'shape_buf_B', 'cf_cycles', 'cf_trough', 'cf_amp', 'cf_amp_m', 'cf_amp_t', 'cf_nosamp', 'shape', 'shape_t', 'cyclepoints',
+NAMES = ['cf_fail_t', 'cf_fail_amp', 'shape_fail_t', 'amp_buf_A', 'amp_buf_B', 'cf_default', 'cf_default_t', 'cf_amp_default', 'cf_amp_nothr_m8', 'edges_noburst', 'cf_buf_A', 'cf_buf_B', 'shape_buf_B', 'cf_cycles', 'cf_trough', 'cf_amp', 'cf_amp_m', 'cf_amp_t', 'cf_nosamp', 'shape', 'shape_t', 'cyclepoints',
          'burstfeat_c', 'burstfeat_a', 'ampfrac', 'ampcons', 'percons', 'mono', 'bfrac', 'extrema', 'zerox', 'phase',
          '2d_dict', '2d_amp', '2d_list', '2d_none', '2d_none_list', '3d', '3d_1', '3d01', 'edges', 'edges_t', 'limit',
          'limit_t', 'epoch', 'epoch_t', 'drop', 'plt_summary', 'plt_summary_t', 'plt_summary_a', 'plt_param', 'plt_cpdf',
          'plt_cparr', 'plt_hist', 'plt_cat']
-CORE = ['cf_default', 'cf_amp_nothr_m8', 'edges_noburst', 'cf_buf_A', 'cf_buf_B', 'cf_cycles', 'cf_amp_m', 'cf_amp_t', 'cf_trough', 'burstfeat_a', '2d_amp', '2d_none_list', '3d01', 'edges', 'limit_t',
+CORE = ['cf_fail_t', 'cf_default', 'cf_amp_nothr_m8', 'edges_noburst', 'cf_buf_A', 'cf_buf_B', 'cf_cycles', 'cf_amp_m', 'cf_amp_t', 'cf_trough', 'burstfeat_a', '2d_amp', '2d_none_list', '3d01', 'edges', 'limit_t',
         'epoch', 'plt_summary']
 REF = {}          # call name -> fingerprint hash of its fresh-state result (filled before the workers are forked)
 
